@@ -35,6 +35,8 @@ def widen_c01(steps):
         if s["op"] == "write_exec_d":
             # re-arrange the programs using the layer's own exec.d files as sources (swap): whatever happens must not depend on the process
             out.append({"op": "write_exec_d", "name": s["name"], "programs": [["p1", "@layer/exec.d/p2"], ["p2", "@layer/exec.d/p1"], ["p3", "p3"]], "swap": True})
+            # ... and a replace that fails (one source does not exist): what a failed call leaves behind is the same in every process too
+            out.append({"op": "write_exec_d", "name": s["name"], "programs": [["p1", "p1"], ["gone", "no-such-source"], ["p3", "p3"]], "swap": True})
     steps[:] = out
     for s in steps:
         if s["op"] == "write_metadata":
@@ -132,6 +134,8 @@ def phase_script(r):
         for i in range(8):
             plan.append(["provides", "prov-%d-%d" % (g, i)])
             plan.append(["requires", "req-%d-%d" % (g, i), tomlw.tagged(dict(WIDE))])
+            if i % 3 == 0:
+                plan.append(["requires", "req-%d-%d" % (g, i), tomlw.tagged({"again": i})])       # the same name required twice in one alternative
         plan.append(["requires_hashmap", "from-hashmap-%d" % g, 12])
         if g < 2:
             plan.append(["or"])
